@@ -81,7 +81,7 @@ claim("C07", "other", "abstract interpretation of package queue: intervals with 
       "Add writes head+n, Push writes head-1 and leaves head = head-1, Pop reads head and leaves head+1 (free when empty), PopLast reads head+n-1, Front reads head, Peek(i) reads head+i (head+n+i for i<0), "
       "Each/Slice walk from head in steps of one, n changes by exactly +1/-1/0, and every element that is read lies in the live window head … head+n-1 (Front/Pop/PopLast only when non-empty, Peek only for offsets proved within 0 … n-1). The buffer is only extended by append when it is exactly full (n == len) and starts at cell 0 (branch fact or "
       "Rotate(vs, -head) followed by head = 0), so the appended cell is logical position n, and the slot classes continue in the grown buffer with head = 0 (Push's slot after growth); Each is stoppable. "
-      "Does NOT decide slice.Rotate's own correctness (that rotating by -head brings the elements to cells 0..n-1 in order), the number of elements Each/Slice visit, "
+      "Does NOT decide slice.Rotate's own correctness (that rotating by -head brings the elements to cells 0..n-1 in order), the number of elements Each visits (for Slice the number is decided, R-SLICE-LEN), "
       "the content of bulk copies, nor — as a whole — that the contents equal the reference deque over arbitrary histories.",
       BASE_NOTE + " The struct invariant 0<=head<len, 0<=n<=len is assumed at method entry and re-established at every return (inductive). The per-method slot specification is written from the documented deque semantics of the exported API (method names are the anchors).",
       "DESIGN.md section 3, C07")
@@ -232,4 +232,6 @@ also("C15", "The library's whole-string tests on the input (strings.ContainsAny(
 also("C17", "(R-ALLOC-BOUNDED) also for sizes computed as len(input) + count.")
 also("C18", "(R-NIL-LAZY) a map made for a nil receiver is stored back through the receiver.")
 also("C19", "R-BUF-BOUND keeps one interval per state of knowledge about the argument's membership (unknown, present, absent), reads Len ± k guards, and R-EXACT-REGIME accepts Len >= cap as established by the interval analysis on every way to a removal.")
+also("C01", "(R-REBUILD-EMPTY) the subtree argument of the in-place rebuild, and of the helpers it is handed on to, is dereferenced only under a nil test - Remove rebuilds an empty tree once the last key is gone.")
+also("C07", "(R-SLICE-LEN) the slice Queue.Slice returns has, as a linear form over head, n and the buffer length, exactly n elements.")
 also("C20", "(R-TRUNC-PREFIX) Trunc backs up only when it cuts; (R-CMP-RANGE) comparison helpers chosen among named functions are followed.")
